@@ -14,9 +14,9 @@ import vlib
 LEVEL = "model_checking"
 
 
-def consts(n, maxt, md, calls, due=True, atomic=True, fault="none"):
+def consts(n, maxt, md, calls, due=True, atomic=True, fault="none", reset=True):
     return {"NTasks": n, "MaxT": maxt, "MD": md, "MaxCalls": calls, "DueCheck": due, "AtomicHandlers": atomic,
-            "Fault": '"%s"' % fault}
+            "Fault": '"%s"' % fault, "ResetUnderLock": reset}
 
 
 def cex_steps(r):
@@ -55,6 +55,10 @@ def model_check(ctx, quick):
                                                     view="View"), timeout=1500, want_ok=False, count=False)
     info["stale_handler_decision_windows"] = r.violated or "holds"
     CEX["cex-stale"] = (cex_steps(r), 10)
+    r = ctx.tlc("TasksImpl", cfg_text=vlib.cfg_text(constants=consts(2, 3, 10, 3, reset=False), invariants=["NoEarlyStart"],
+                                                    view="View"), timeout=1500, want_ok=False, count=False)
+    info["executeAt_cleared_without_lock"] = r.violated or "holds"
+    CEX["cex-reset"] = (cex_steps(r), 10)
     # plausible regressions modelled as fault variants: their counterexamples are adversarial scripts that the
     # unchanged code passes and a tree with that regression fails
     for fault, invariant, md in (("cancelctx", "NoStartAfterCancel", 10), ("overtimenodue", "NoEarlyOvertime", 10),
